@@ -3,6 +3,7 @@
   `while skip + 1 < size && out[skip] == b'0'` strip give the canonical numeral.
 -/
 import CB.Lemmas.C17Numeral
+import CB.Lemmas.Limbs
 namespace CB.Radix
 open CB
 
@@ -143,5 +144,99 @@ theorem skipZeros_padded {r : Nat} (hr : 2 ≤ r) {n x : Nat} (hn : 0 < n) (hx :
         intro h0
         apply hc.2
         rw [hd, h0]; rfl
+
+/-! ### buffer sizes are large enough -/
+
+theorem val_lt_two_pow {limbs : List Nat} (hw : WF limbs) : val limbs < 2 ^ (64 * limbs.length) := by
+  have := val_lt hw
+  rw [B_eq_pow, ← Nat.pow_mul] at this
+  exact this
+
+/-- power-of-two radix: `size = ceil(64·n / bits)` digits hold every `n`-limb value -/
+theorem pow2_size_ok {radix : Nat} (h2 : 2 ≤ radix) (hp : isPow2 radix = true) {limbs : List Nat}
+    (hne : limbs ≠ []) (hw : WF limbs) :
+    0 < (limbs.length * 64 + trailingZeros radix - 1) / trailingZeros radix ∧
+    val limbs < radix ^ ((limbs.length * 64 + trailingZeros radix - 1) / trailingZeros radix) := by
+  have hr : radix = 2 ^ trailingZeros radix := by
+    unfold isPow2 at hp
+    simp only [Bool.and_eq_true, beq_iff_eq] at hp
+    exact hp.2
+  generalize trailingZeros radix = t at hr ⊢
+  have ht : 1 ≤ t := by
+    rcases Nat.eq_zero_or_pos t with h | h
+    · subst h; simp at hr; omega
+    · exact h
+  have hn : 1 ≤ limbs.length := by
+    cases limbs with
+    | nil => exact absurd rfl hne
+    | cons _ _ => simp
+  have hdm := Nat.div_add_mod (limbs.length * 64 + t - 1) t
+  have hml := Nat.mod_lt (limbs.length * 64 + t - 1) (show 0 < t by omega)
+  generalize hq : (limbs.length * 64 + t - 1) / t = q at hdm ⊢
+  have hge : 64 * limbs.length ≤ t * q := by omega
+  have hqpos : 0 < q := by
+    rcases Nat.eq_zero_or_pos q with h | h
+    · subst h; simp at hge; omega
+    · exact h
+  refine ⟨hqpos, ?_⟩
+  rw [hr, ← Nat.pow_mul]
+  exact Nat.lt_of_lt_of_le (val_lt_two_pow hw) (Nat.pow_le_pow_right (by decide) hge)
+
+theorem ilog_maximal : ∀ r, r < 37 → 2 ≤ r → B ≤ r ^ (ilog r + 1) := by decide +kernel
+
+theorem allParamsGo_mem : ∀ (f radix : Nat) (p : DivParams), p ∈ allParamsGo f radix → p = mkParams p.radix := by
+  intro f
+  induction f with
+  | zero => intro radix p h; simp [allParamsGo] at h
+  | succ f ih =>
+    intro radix p h
+    simp only [allParamsGo] at h
+    split at h
+    · split at h
+      · exact ih _ p h
+      · rcases List.mem_cons.mp h with h | h
+        · rw [h]; rfl
+        · exact ih _ p h
+    · simp at h
+
+theorem forRadix_digitsLimb {radix : Nat} {p : DivParams} (h : forRadix radix = .ok p) :
+    p.radix = radix ∧ p.digitsLimb = ilog radix := by
+  unfold forRadix at h
+  split at h
+  · exact absurd h (by simp)
+  · simp only at h
+    split at h
+    · exact absurd h (by simp)
+    · split at h
+      · exact absurd h (by simp)
+      · next p' hp' =>
+        split at h
+        · exact absurd h (by simp)
+        · next hrad =>
+          injection h with h
+          subst h
+          have hmem : p' ∈ allParams := List.mem_of_getElem? hp'
+          have := allParamsGo_mem _ _ p' hmem
+          have hr : p'.radix = radix := by
+            rcases Nat.lt_or_ge p'.radix radix with h1 | h1
+            · exact absurd (by omega) hrad
+            · rcases Nat.lt_or_ge radix p'.radix with h2 | h2
+              · exact absurd (by omega) hrad
+              · omega
+          refine ⟨hr, ?_⟩
+          rw [this, hr]; rfl
+
+/-- division path: `n·(digits_limb + 1)` digits hold every `n`-limb value -/
+theorem div_size_ok {radix : Nat} (h2 : 2 ≤ radix) (h36 : radix ≤ 36) {p : DivParams}
+    (hpar : forRadix radix = .ok p) {limbs : List Nat} (hne : limbs ≠ []) (hw : WF limbs) :
+    0 < limbs.length * (p.digitsLimb + 1) ∧ val limbs < radix ^ (limbs.length * (p.digitsLimb + 1)) := by
+  have hn : 1 ≤ limbs.length := by
+    cases limbs with
+    | nil => exact absurd rfl hne
+    | cons _ _ => simp
+  refine ⟨Nat.mul_pos hn (by omega), ?_⟩
+  rw [(forRadix_digitsLimb hpar).2, Nat.mul_comm, Nat.pow_mul]
+  have hB := ilog_maximal radix (by omega) h2
+  exact Nat.lt_of_lt_of_le (val_lt hw) (Nat.pow_le_pow_left hB _)
 
 end CB.Radix
